@@ -364,8 +364,7 @@ class ConcreteFactory:
         else:
             obj = cls.__new__(cls)
         for k, v in fields.items():
-            if ctor is None:
-                object.__setattr__(obj, k, v)
+            object.__setattr__(obj, k, v)
         return obj
 
     def assume(self, cond):
@@ -519,13 +518,17 @@ class Registry:
                 continue
             else:
                 raise RuntimeError(f'contract {ci.name}.{name}: no value for parameter {p}')
-        saved = I.modular
+        saved = (I.modular, I.inline_set)
         if ci.kind == 'lemma':
-            I.modular = False       # lemma harnesses run the real code of the functions they compose (inlined, not by contract)
+            inl = getattr(ci.pycls, 'inline', None)
+            if inl is None:
+                I.modular = False   # lemma harnesses run the real code of the functions they compose (inlined, not by contract)
+            else:
+                I.inline_set = set(inl)   # ... or only the named functions, everything else by contract
         try:
             return I.call_function(f, [], kwargs, force_inline=True)
         finally:
-            I.modular = saved
+            I.modular, I.inline_set = saved
 
     def apply_external(self, I, ci: ContractInfo, args, kwargs):
         """assumed contract of a standard-library function: clauses see `args` (positional tuple) and the keywords by name"""
